@@ -30,6 +30,17 @@ pub fn convert(f: &f::Layout) -> Result<s::Layout, String> {
     adjust_repeats(&mut res, &from_table, &alias_mappings, fm)?;
   }
   
+  // The mapper refuses (panics on) a mapping that lists a key twice, so reject it here
+  for sm in &res {
+    for keys in &[&sm.from, &sm.to] {
+      for i in 0 .. keys.len() {
+        if keys[i+1..].contains(&keys[i]) {
+          return Err(format!("Key {} appears more than once in {:?}, in the mapping from {:?} to {:?}", keys[i], keys, sm.from, sm.to));
+        }
+      }
+    }
+  }
+  
   Ok(s::Layout {
     mappings: res
   })
